@@ -601,6 +601,7 @@ var wsVals = []string{"Xeon\u00a0E5", "a\u2003b", "a\u3000b", "x\u2028y", "a\vb"
 var bases = []string{"Foo", "Bar", "F", "Foo-bar", "\xc3\xa9t\xc3\xa9", "Q"}
 var subs = []string{"/x", "/y", "/a=1", "/a=2", "/b=c=d", "/name=q", "/gomaxprocs=3", "/sub2=w", "/z=1"}
 var sufs = []string{"", "", "", "-4", "-8", "-16", "-+5", "--3", "-x", "-99999999999999999999", "-0", "-9223372036854775807", "-9223372036854775808"}
+var serverKeys = []string{"upload", "upload-part", "upload-time", "upload-file", "by"}
 var users = []string{"", "", "alice", "bob smith", "carol"}
 var fnames = []string{"", "f.txt", "g.txt", "d/h.txt", "a b.txt", `d\w.txt`, "f.txt"}
 
@@ -658,6 +659,19 @@ func (g *gen) file(tags map[string]bool) string {
 	if g.findings == 2 && r.Chance(1, 4) {
 		names = append(names, "")
 	}
+	if r.Chance(1, 12) {
+		// a header: removal / assignment lines for server keys, then the blank line
+		for n := 1 + r.Intn(3); n > 0; n-- {
+			k := hx.Pick(r, serverKeys)
+			if r.Chance(1, 3) {
+				b.WriteString(k + ": other" + eol)
+			} else {
+				b.WriteString(k + ":" + eol)
+			}
+		}
+		b.WriteString(eol)
+		tags["unset-server"] = true
+	}
 	nb := 0
 	bench := func() {
 		n := hx.Pick(r, names)
@@ -705,7 +719,14 @@ func (g *gen) file(tags map[string]bool) string {
 			b.WriteString(k + sep + val + e)
 			tags["set"] = true
 		case x < 7:
-			b.WriteString(hx.Pick(r, cfgKeys) + hx.Pick(r, []string{":", ":  ", ": \t"}) + eol)
+			k := hx.Pick(r, cfgKeys)
+			if r.Chance(1, 4) {
+				// a removal line for a label the server adds (as in a saved /search response): the
+				// server's labels are permanent, file content can neither override nor remove them
+				k = hx.Pick(r, serverKeys)
+				tags["unset-server"] = true
+			}
+			b.WriteString(k + hx.Pick(r, []string{":", ":  ", ": \t"}) + eol)
 			tags["unset"] = true
 		case x < 8:
 			b.WriteString(eol)
